@@ -877,12 +877,13 @@ Proof.
 Qed.
 
 (* the general form: entry with any state whose argv is still as the caller built it *)
-Lemma parse_ok e n s :
+Lemma parse_with_ok fuel e n s :
+  parse_fuel (e_strs e) <= fuel ->
   length (e_strs e) = e_argc e -> wf_table n (e_tbl e) -> wf_store n (st_sto s) ->
   (0 <= st_bad s < bad_opts_modulus)%Z -> st_argv s = init_argv (e_argc e) ->
-  OkPost e n (st_bad s) (st_nbad s) (st_sto s) (parse e s).
+  OkPost e n (st_bad s) (st_nbad s) (st_sto s) (parse_with fuel e s).
 Proof.
-  intros Hlen [Hslot Hbool] Hwf Hb Hargv.
+  intros Hfuel Hlen [Hslot Hbool] Hwf Hb Hargv.
   assert (HB : forall c s', st_bad s' = st_bad s -> st_nbad s' = st_nbad s ->
                             BadRel e (st_bad s) (st_nbad s) c s').
   { intros c s' H1 H2. constructor; rewrite ?H1, ?H2, ?Nat.sub_diag, ?Z.add_0_r; auto.
@@ -890,7 +891,7 @@ Proof.
     - intros (_ & ? & ?). split; auto. }
   assert (HP : PInv e n (st_bad s) (st_nbad s) (st_sto s) s).
   { constructor; auto. rewrite Hargv. apply init_argv_length. apply StoreRel_refl. }
-  unfold parse, parse_with.
+  unfold parse_with.
   destruct (e_argc e <=? 1) eqn:Ea.
   { eexists; split; [reflexivity|exact HP]. }
   apply Nat.leb_gt in Ea.
@@ -903,16 +904,32 @@ Proof.
     - lia.
     - apply StoreRel_refl. }
   unfold argv_get. rewrite Hargv, (init_argv_lt _ 1 Ea). cbn [bind arg_ptr option_map].
-  destruct (loop_ok e n (st_bad s) (st_nbad s) (st_sto s) Hlen Hslot Hbool Hb (parse_fuel (e_strs e))
+  destruct (loop_ok e n (st_bad s) (st_nbad s) (st_sto s) Hlen Hslot Hbool Hb fuel
                     (set_i s 1) (Some (1, 0))) as (o & Ho & HPo); auto.
   - simpl. repeat split; auto.
     destruct (nth_error (e_strs e) 1) as [str|] eqn:E.
     + exists str. split; auto. left. split; auto. rewrite Hargv. exact (init_argv_lt _ 1 Ea).
     + apply nth_error_None in E. lia.
-  - simpl. rewrite parse_fuel_total. pose proof (total_skipn_le (e_strs e) 1). lia.
+  - simpl. rewrite parse_fuel_total in Hfuel. pose proof (total_skipn_le (e_strs e) 1). lia.
   - rewrite Ho. simpl. destruct o as [b s'|b s'].
     + apply epilogue_ok; auto.
     + eexists; split; [reflexivity|exact HPo].
+Qed.
+
+Lemma parse_ok e n s :
+  length (e_strs e) = e_argc e -> wf_table n (e_tbl e) -> wf_store n (st_sto s) ->
+  (0 <= st_bad s < bad_opts_modulus)%Z -> st_argv s = init_argv (e_argc e) ->
+  OkPost e n (st_bad s) (st_nbad s) (st_sto s) (parse e s).
+Proof. intros. apply parse_with_ok; auto. Qed.
+
+(* any fuel from parse_fuel on excludes Out_of_fuel (and every other Fault) *)
+Theorem parse_total_safe_fuel fuel e n sto bad :
+  parse_fuel (e_strs e) <= fuel ->
+  length (e_strs e) = e_argc e -> wf_table n (e_tbl e) -> wf_store n sto -> (0 <= bad < 256)%Z ->
+  exists out, parse_with fuel e (init_st (e_argc e) sto bad) = Ok out.
+Proof.
+  intros Hf Hlen Hwt Hws Hb.
+  destruct (parse_with_ok fuel e n (init_st (e_argc e) sto bad) Hf Hlen Hwt Hws Hb eq_refl) as (out & Ho & _). eauto.
 Qed.
 
 (* parse_total_safe.  For EVERY argument vector (arbitrary bytes, any length), every well-formed
